@@ -168,47 +168,24 @@ Theorem C10_constrained_parafac : forall (nn_modes : list nat) (other : nat -> l
 Proof. exact constrained_parafac_nonneg. Qed.
 Print Assumptions C10_constrained_parafac.
 
-(* ---- PARAFAC2: holds from a non-negative start on modes 0 and 2 (any line search) and on every declared mode
-        without line search; refuted from the signed SVD start and, for mode 1, with line search *)
-Theorem C10_parafac2_modes02_partial : forall (nrm : list R -> R), (forall v, 0 <= nrm v) ->
+(* ---- PARAFAC2: every declared mode (mode 1 = the B factor included), with or without line search, any jump, any
+        acceptance pattern, any number of inner HALS-CP iterations, optional normalisation *)
+Theorem C10_parafac2 : forall (nrm : list R -> R), (forall v, 0 <= nrm v) ->
   forall (utm utu : nat -> nat -> @cp_state R -> nat -> list (list R)) (solve : list (list R) -> list (list R) -> list (list R))
          (inner : nat -> nat -> @cp_state R -> nat -> nat) (istop : nat -> nat -> @cp_state R -> bool) (nn_modes : list nat)
          (n_iter_parafac : nat) (line : nat -> option R) (accept : nat -> @cp_state R -> bool) (normalize : bool)
          (stop : nat -> @cp_state R -> bool) (n_iter_max : nat) (w : list R) (Fs : list (list (list R))),
-  vnn w -> (forall m, In m nn_modes -> (m = 0 \/ m = 2)%nat -> mnn (nth m Fs [])) ->
-  let out := parafac2 Rops nrm utm utu solve inner istop nn_modes n_iter_parafac line accept normalize stop n_iter_max (w, Fs) in
-  vnn (fst out) /\ forall m, In m nn_modes -> (m = 0 \/ m = 2)%nat -> mnn (nth m (snd out) []).
-Proof. exact parafac2_nonneg_modes02. Qed.
-Print Assumptions C10_parafac2_modes02_partial.
-
-Theorem C10_parafac2_no_linesearch_partial : forall (nrm : list R -> R), (forall v, 0 <= nrm v) ->
-  forall (utm utu : nat -> nat -> @cp_state R -> nat -> list (list R)) (solve : list (list R) -> list (list R) -> list (list R))
-         (inner : nat -> nat -> @cp_state R -> nat -> nat) (istop : nat -> nat -> @cp_state R -> bool) (nn_modes : list nat)
-         (n_iter_parafac : nat) (accept : nat -> @cp_state R -> bool) (normalize : bool)
-         (stop : nat -> @cp_state R -> bool) (n_iter_max : nat) (w : list R) (Fs : list (list (list R))),
   vnn w -> (forall m, In m nn_modes -> mnn (nth m Fs [])) ->
-  let out := parafac2 Rops nrm utm utu solve inner istop nn_modes n_iter_parafac (fun _ => None) accept normalize stop n_iter_max (w, Fs) in
+  let out := parafac2 Rops nrm utm utu solve inner istop nn_modes n_iter_parafac line accept normalize stop n_iter_max (w, Fs) in
   vnn (fst out) /\ forall m, In m nn_modes -> mnn (nth m (snd out) []).
-Proof. exact parafac2_nonneg_no_linesearch. Qed.
-Print Assumptions C10_parafac2_no_linesearch_partial.
+Proof. exact parafac2_nonneg. Qed.
+Print Assumptions C10_parafac2.
 
-Theorem C10_parafac2_linesearch_mode1_refuted :
-  exists utm utu solve inner istop line accept,
-    let out := parafac2 Qops (fun _ => 1%Q) utm utu solve inner istop [0; 1; 2]%nat 1 line accept false (fun _ _ => false) 1
-                        ([1%Q], [[[1%Q]]; [[1%Q]]; [[1%Q]]]) in
-    qneg (nth 0 (nth 0 (nth 1 (snd out) []) []) 0%Q).
-Proof. exact parafac2_linesearch_mode1_witness. Qed.
-Print Assumptions C10_parafac2_linesearch_mode1_refuted.
-
-Theorem C10_parafac2_signed_init_refuted :
-  exists utm utu solve inner istop,
-    let init := ([1%Q], [[[1%Q]]; [[1%Q]]; [[(-1)%Q]]]) in
-    qneg (nth 0 (nth 0 (nth 2 (snd (parafac2 Qops (fun _ => 1%Q) utm utu solve inner istop [0; 1; 2]%nat 1 (fun _ => None) (fun _ _ => false)
-                                     false (fun _ _ => false) 1 init)) []) []) 0%Q) /\
-    qneg (nth 0 (nth 0 (nth 2 (snd (parafac2 Qops (fun _ => 1%Q) utm utu solve inner istop [0; 1; 2]%nat 1 (fun _ => None) (fun _ _ => false)
-                                     false (fun _ _ => false) 0 init)) []) []) 0%Q).
-Proof. exact parafac2_signed_init_witness. Qed.
-Print Assumptions C10_parafac2_signed_init_refuted.
+(* the built-in initialisations of parafac2 are projected on the declared modes *)
+Theorem C10_initialize_parafac2_feasible : forall (nn_modes : list nat) (raw : list (list (list R))),
+  forall m, In m nn_modes -> mnn (nth m (initialize_parafac2_nn Rops nn_modes raw) []).
+Proof. exact initialize_parafac2_nn_nonneg. Qed.
+Print Assumptions C10_initialize_parafac2_feasible.
 
 (* ---- non-vacuity and sharpness *)
 (* the hypotheses are satisfiable; the model computes on a signed tensor *)
@@ -219,6 +196,16 @@ Example C10_model_computes_on_signed_data :
       (fun _ _ => false) false [0; 1]%nat 1 ([1%Q], [[[1%Q]; [1%Q]]; [[1%Q]; [1%Q]]])
   = ([1%Q], [[[(1 # 2000)%Q]; [(1 # 2)%Q]]; [[(4000 # 1000001)%Q]; [(7996000 # 1000001)%Q]]]).
 Proof. exact mu_signed_example. Qed.
+(* the hypothesis on a USER start cannot be dropped (executed over Q on the same functions): a negative entry of a declared mode is
+   returned as is for cap 0 and survives an iteration in which the HALS row update is skipped (zero Gram diagonal) *)
+Example C10_parafac2_user_start_hypothesis_needed :
+  exists utm utu solve inner istop,
+    let init := ([1%Q], [[[1%Q]]; [[1%Q]]; [[(-1)%Q]]]) in
+    qneg (nth 0 (nth 0 (nth 2 (snd (parafac2 Qops (fun _ => 1%Q) utm utu solve inner istop [0; 1; 2]%nat 1 (fun _ => None) (fun _ _ => false)
+                                     false (fun _ _ => false) 1 init)) []) []) 0%Q) /\
+    qneg (nth 0 (nth 0 (nth 2 (snd (parafac2 Qops (fun _ => 1%Q) utm utu solve inner istop [0; 1; 2]%nat 1 (fun _ => None) (fun _ _ => false)
+                                     false (fun _ _ => false) 0 init)) []) []) 0%Q).
+Proof. exact parafac2_signed_init_witness. Qed.
 (* the theorems cannot be strengthened to undeclared modes *)
 Example C10_undeclared_mode_unconstrained :
   exists utm utu solve inner,
